@@ -76,7 +76,10 @@ func TestVerifC16(t *testing.T) {
 			reads = append(reads, t)
 			return t
 		}
-		p := &Prefix{Prefix: mp("2001:db8::/64"), OnLink: true, Autonomous: true, ValidLifetime: valid, PreferredLifetime: pref, Deprecated: deprecated, Epoch: epoch, TimeNow: clock}
+		// the flags of the option vary (both off included): lifetimes count down whatever they are
+		fl := (i / 3) % 4
+		r.Distinct("prefix_flag_combinations", fmt.Sprint(fl))
+		p := &Prefix{Prefix: mp("2001:db8::/64"), OnLink: fl&1 == 0, Autonomous: fl&2 == 0, ValidLifetime: valid, PreferredLifetime: pref, Deprecated: deprecated, Epoch: epoch, TimeNow: clock}
 		rt := &Route{Prefix: mp("2001:db8:1::/48"), Preference: ndp.High, Lifetime: route, Deprecated: deprecated, Epoch: epoch, TimeNow: clock}
 		if i%4 == 1 {
 			// the same stanzas as wildcards (::/64, ::/0) that expand to one network
